@@ -237,7 +237,14 @@ func (h *H) watchdog() {
 	for {
 		time.Sleep(500 * time.Millisecond)
 		cc := h.cur.Load()
-		if cc == nil || time.Since(cc.start) < time.Duration(h.hangS)*time.Second || h.slow[cc.campaign] {
+		if cc == nil || h.slow[cc.campaign] {
+			continue
+		}
+		// a hang is one call into the library that does not return within the
+		// limit; a case that makes many calls (permutations, repeats) may take
+		// longer as a whole, within a generous bound
+		limit := time.Duration(h.hangS) * time.Second
+		if OldestCall() < limit && time.Since(cc.start) < 20*limit {
 			continue
 		}
 		f := &Failure{Key: "hang", Msg: fmt.Sprintf("case did not finish within %d s", h.hangS)}
